@@ -21,31 +21,38 @@ RULE = ('programs: seeded random C (c3 for avr) functions built from templates t
         '0 and 2 for each target; every frame handed to alloc_frame is one case; a frame is non-trivial when it '
         'has >= 8 virtual registers and >= 1 interference check between distinct registers; distinct = distinct '
         '(target, instruction-shape, colouring) digest')
-EXPLANATION = ('translation validation: the Coq function check_frame (liveness post-fixpoint, interference/alias '
-               'check with the move exception, deleted instructions are same-colour copies, precoloured registers '
-               'unchanged, rewritten program = renamed program) is proved sound for all semantics and all machine '
-               'states (c06_check_alloc_sound: lock-step simulation on every live register; '
-               'c06_liveness_fixpoint_sound; c06_no_shared_live) and is run on every frame the real allocator '
-               'produces for the generated programs. Spill-code insertion (rewrite_program) is validated by a '
-               'Python structural check only (c06 spill correspondence), not by a Coq theorem.')
+EXPLANATION = ('translation validation: the Coq function check_frame (computes a liveness table and validates it as a '
+               'post-fixpoint; interference/alias check with the move exception; deleted instructions are same-colour '
+               'copies; physical registers keep their colour; rewritten program = renamed program without the deleted '
+               'copies) is proved sound for all instruction semantics, all alias effects and all machine states '
+               '(c06_check_alloc_sound: lock-step simulation, every live register agrees, every read returns the '
+               'virtual program\'s value; c06_compact_sound: deleting the no-op entries; c06_liveness_fixpoint_sound; '
+               'c06_no_shared_live + c06_shared_are_copies) and is run on every frame (last colouring round) the real '
+               'allocator produces for the generated programs. Spill-code insertion (rewrite_program, earlier rounds) is '
+               'validated per frame by a Python structural check; in Coq only the local one-instruction lemma '
+               'c06_spill_block_sound_partial is proved (no whole-program spill simulation, no memory model of the '
+               'target\'s load/store instructions). Pairs of two physical registers named by the input program are not '
+               'checked (their aliasing is the hardware\'s, identical before and after) unless the instruction is deleted.')
 TRUSTED = ['frame dump (this module): used/defined registers, clobbers, ismove, jumps are read through the same '
            'Instruction properties the allocator reads; register identity = Python object identity for virtual '
            'registers, (class, name) for physical ones; physical register of a coloured virtual register = '
            'get_real() (class.from_num(color))',
            'control-flow reading of FlowGraph: a non-empty ins.jumps is the complete successor list, otherwise fall through',
            'arch.info.alias is the alias relation of the target (symmetrised by the validator)',
-           'compaction: executing a program with deleted entries (no-ops) equals executing the list without them '
-           'with renumbered jump targets (checked structurally by check_rewritten, not proved)',
+           'the liveness table is computed inside Coq by an unverified iteration and then validated by check_live '
+           '(nothing trusted there); jump targets are passed as instruction indices computed by this module',
            'that the machine instructions really read/write only what they declare is property C07, not C06']
-ASSUMPTIONS = ['the abstract machine destroys every alias of a written register (most conservative reading); '
-               'instruction semantics and branch decisions are arbitrary functions of the values read',
+ASSUMPTIONS = ['abstract machine: a write changes every aliasing register by an arbitrary function of (program point, both '
+               'registers, value written, old contents); instruction results and branch decisions are arbitrary '
+               'functions of the values read; an instruction flagged ismove with one use and one def copies',
                'spill slots and memory are outside the abstract machine; spill rewriting is checked structurally in Python']
 MANIFEST = {
     'text': 'translation_validation: a Coq-verified certificate checker decides, for every frame the real allocator '
             'produced for the generated programs on each target, that the colouring preserves every live value '
             '(simulation for all instruction semantics and all states); proved once, run per frame',
-    'note': 'trusted: frame dump and CFG reading, arch.info.alias, compaction of deleted moves, Coq kernel. Spill rewriting '
-            'is checked structurally in Python only. The guarantee is per validated frame, not for all programs.',
+    'note': 'trusted: frame dump and CFG reading (tools/props/c06.py), arch.info.alias, Coq kernel; that instructions '
+            'read/write what they declare is C07. Spill rewriting: Python structural check per frame + a local Coq lemma '
+            '(partial). The guarantee is per validated frame, not for all programs. No axioms.',
     'technique': 'verified validator (Coq) + per-frame certificates + interpreter-confirmed rejections',
 }
 
@@ -107,6 +114,34 @@ class Capture:
                         'move': bool(ins.ismove), 'jumps': [id(j) for j in ins.jumps]})
         return out
 
+    @staticmethod
+    def finalise(rec):
+        """replace Python object identities by small frame-local numbers and drop every object
+        reference (objects were kept alive until here, so identities were unique)"""
+        imap, vmap = {}, {}
+
+        def ii(x):
+            return imap.setdefault(x, len(imap))
+
+        def vk(k):
+            if k[0] == 'V':
+                return ('V', vmap.setdefault(k[1], len(vmap)))
+            return k
+        for prog in [rec['entry']] + rec['rounds'] + [rec['after']]:
+            for i in prog:
+                i['id'] = ii(i['id'])
+            for i in prog:
+                i['jumps'] = [ii(j) for j in i['jumps']]
+                for f in ('uses', 'defs', 'clob'):
+                    i[f] = [vk(k) for k in i[f]]
+        rec['regs'] = {vk(k): (None, c0, p0) for k, (r, c0, p0) in rec['regs'].items()}
+        rec['color'] = {vk(k): v for k, v in rec['color'].items()}
+        rec['pre'] = {vk(k): v for k, v in rec['pre'].items()}
+        rec['own_live_out'] = {ii(k): set(vk(x) for x in v) for k, v in rec['own_live_out'].items()}
+        for sp in rec['spills']:
+            sp['temps'] = [(vk(t), b) for t, b in sp['temps']]
+        rec.pop('keep_r', None)
+
     def install(self):
         from ppci.codegen import registerallocator as ra
         cap = self
@@ -151,8 +186,7 @@ class Capture:
                 if lo is not None:
                     own[id(i)] = set(cap.rkey(x) for x in lo)
             rec['own_live_out'] = own
-            rec['keep'] = [frame, list(frame.instructions)]   # keep objects alive: ids stay unique
-            rec['keep'].append([v[0] for v in rec['regs'].values()])
+            cap.finalise(rec)
             cap.frames.append(rec)
             return r
 
@@ -161,7 +195,31 @@ class Capture:
             if rec is not None:
                 rec['rounds'].append(cap.snap(frame, rec['regs'], self.arch))
                 rec['keep_r'] = rec.get('keep_r', []) + [list(frame.instructions)]
-            return orig_init(self, frame)
+            r = orig_init(self, frame)
+            if rec is not None:
+                # localisation aid: does the freshly built interference graph contain every pair the
+                # validator will require (written register vs. register live across, by the allocator's
+                # own liveness)?
+                missing = []
+                try:
+                    ig = frame.ig
+                    for ins in frame.instructions:
+                        lo = getattr(ins, 'live_out', None)
+                        if lo is None:
+                            continue
+                        for d in list(ins.defined_registers) + list(ins.clobbers):
+                            for v in lo:
+                                if v is d:
+                                    continue
+                                if d._num is not None and v._num is not None:
+                                    continue
+                                if not (ig.has_node(d) and ig.has_node(v) and ig.interfere(d, v)):
+                                    missing.append((str(d), str(v)))
+                except Exception as ex:   # noqa: BLE001
+                    missing.append(('error', repr(ex)[:80]))
+                rec['ig_missing'] = missing[:5]
+                rec['ig_missing_n'] = len(missing)
+            return r
 
         def rewrite_program(self, node):
             rec = getattr(self, '_c06', None)
@@ -764,6 +822,8 @@ def report_rejection(ctx, rec, why):
     base = {'fn': 'GraphColoringRegisterAllocator.alloc_frame', 'key': 'alloc:' + rec.get('march', rec['arch']),
             'target': rec.get('march', rec['arch']), 'function': rec['name'], 'opt_level': rec.get('opt'),
             'validator': why, 'failing_clauses': [list(map(str, e)) for e in errs[:6]],
+            'localisation': {'interference_graph_missing_required_edges': rec.get('ig_missing_n'),
+                             'examples': rec.get('ig_missing')},
             'source': rec.get('src', ''),
             'how_to_replay': 'compile `source` with ppci.api.cc (c3c for avr) for `target` at `opt_level`; '
                              'tools/props/c06.py Capture dumps the frame; check_frame rejects it'}
@@ -832,7 +892,8 @@ def validate_frames(ctx, frames):
 
 
 def run(ctx):
-    ok, _ = ctx.build(['Proofs/C06_regalloc.vo', 'Model/RegAllocCheck.vo', 'Lib/Val.vo'])
+    ok, _ = ctx.build(['Proofs/C06_regalloc.vo', 'Proofs/C06_compact.vo', 'Proofs/C06_spill.vo',
+                       'Model/RegAllocCheck.vo', 'Lib/Val.vo'])
     if ok:
         ctx.check_props('Props/C06.v')
     cap = Capture()
@@ -864,6 +925,8 @@ def run(ctx):
                 differ += 1
                 break
     ctx.cov['stages']['frames_where_allocator_liveness_differs_from_certificate'] = differ
+    ctx.cov['stages']['frames_whose_interference_graph_lacks_a_required_edge'] = sum(
+        1 for f in frames if f.get('ig_missing_n'))
     if ok:
         recs, stats_all, bad = validate_frames(ctx, frames)
         if stats_all:
@@ -917,3 +980,35 @@ def search(ctx, frames=None):
                                'actual': wit, 'source': rec.get('src', ''), 'opt_level': rec.get('opt')})
     ctx.cov['stages']['python_mirror_frames'] = n
     ctx.cov['evaluations'] += n
+
+
+def replay(rec):
+    """./check C06 --replay FILE: recompile the recorded source on the recorded target, dump the frame
+    again and re-run the Python mirror of the validator, the spill check and the interpreter search"""
+    from vlib import ensure_repo_on_path
+    ensure_repo_on_path()
+    march = rec.get('target') or (rec.get('args') or [None])[0]
+    fname = rec.get('function') or (rec.get('args') or [None, None])[1]
+    src = rec.get('source')
+    if not (march and src):
+        print(json.dumps(rec, indent=1))
+        return 0
+    cap = Capture()
+    cap.install()
+    try:
+        err = compile_program(march, ARCH.get(march, ('c',))[0], src, rec.get('opt_level') or 0)
+    finally:
+        cap.uninstall()
+    print('compiled for %s: %s, %d frames' % (march, err or 'ok', len(cap.frames)))
+    rc = 0
+    for fr in cap.frames:
+        if fname and fr['name'] != fname:
+            continue
+        errs, _ = pycheck(fr)
+        serrs = check_spill_py(fr) if len(fr['rounds']) > 1 else []
+        wit = interp_search(fr) if errs else None
+        print('frame %s: validator clauses failing: %s; spill check: %s; distinguishing execution: %s'
+              % (fr['name'], errs[:4] or 'none', serrs[:4] or 'ok', wit))
+        if errs or serrs:
+            rc = 1
+    return rc
